@@ -156,6 +156,22 @@ pub fn cases(prop: &str, seed: u64, tier: &str) -> Vec<String> {
         "C06" | "C13P" => {
             std_cases(&mut out, &mut r, &["HU", "HN", "HP", "HT"], if tier == "quick" { 150 } else { 5000 });
             let b = budget(tier, 3000, 200000);
+            // fixed shapes: a sourceFile header ending in a backslash before the line break with a `"}` on the next
+            // line, escapes inside the value, very long runs of line terminators, zero padded numbers
+            for f in [
+                "# {\"id\":\"sourceFile\",\"fileName\":\"abc\\\nx\"}\na.B -> c:\n",
+                "# {\"id\":\"sourceFile\",\"fileName\":\"abc\\\r\n\"}\r\na.B -> c:\r\n",
+                "# {\"id\":\"sourceFile\",\"fileName\":\"a\\\"b\"}\na.B -> c:\n",
+                "a.B -> c:\n    000000000000000000007:0000000000000000000000009:void zp():00000000000000000000011 -> z\n",
+            ] {
+                push_wild(&mut out, f.as_bytes());
+                out.push("I".into());
+            }
+            for (n, ch) in [(3000usize, "\n"), (5000, "\r"), (4000, "\r\n")] {
+                let f = format!("a.B -> c:{}    void f() -> g{}", ch.repeat(n), ch.repeat(n / 2));
+                push_wild(&mut out, f.as_bytes());
+                out.push("I".into());
+            }
             for k in 0..2 {
                 let n = *r.pick(&[999usize, 1000, 1001, 1200]) + k;
                 let mut f = Vec::new();
@@ -214,10 +230,18 @@ pub fn cases(prop: &str, seed: u64, tier: &str) -> Vec<String> {
                 };
                 push_wild(&mut out, &bytes);
                 out.push("D".into());
+                if i % 5 == 0 && !bytes.is_empty() {
+                    // metadata of a section taken after the parent answered: that of the section's own bytes
+                    let (a, bnd) = (r.below(bytes.len() + 1), r.below(bytes.len() + 1));
+                    out.push(format!("SEC {} {}", a.min(bnd), a.max(bnd)));
+                }
             }
             for (_, bytes) in corpus_files() {
                 push_wild(&mut out, &bytes);
                 out.push("D".into());
+                if bytes.len() < 300_000 {
+                    out.push(format!("SEC {} {}", bytes.len() / 3, bytes.len() / 3 * 2));
+                }
             }
         }
         "C15" => {
@@ -370,6 +394,14 @@ pub fn cases(prop: &str, seed: u64, tier: &str) -> Vec<String> {
                     // (implementation-only sink operation: only the effect on the following write matters here)
                     out.push(format!("ZI max=0 {}:F", 1 + r.below(4)));
                 }
+                if prop == "C14" && i % 2 == 0 {
+                    // the same bytes through a gathering sink with little room per call
+                    out.push(format!("ZI max={} vec", 25 + (i % 90)));
+                    // a section taken after the parent was written / summarised is the mapping of its bytes
+                    let (a, bnd) = (r.below(m.len() + 1), r.below(m.len() + 1));
+                    out.push(format!("SEC {} {}", a.min(bnd), a.max(bnd)));
+                    out.push("SEC 0 0".into());
+                }
                 out.push("W".into());
             }
             for (_, bytes) in corpus_files() {
@@ -397,10 +429,15 @@ pub fn cases(prop: &str, seed: u64, tier: &str) -> Vec<String> {
                 }
                 out.extend(qs);
                 emit_text_queries(&mut out, m.as_bytes(), &mut r, 3, 3, 3);
+                // the shared mapping itself: a section taken (by any thread) after the parent was queried
+                let (a, bnd) = (r.below(m.len() + 1), r.below(m.len() + 1));
+                out.push(format!("SEC {} {}", a.min(bnd), a.max(bnd)));
+                out.push("D".into());
             }
         }
         "C10" => {
             let b = budget(tier, 80, 2500);
+            fixed_shapes(&mut out, &mut r, false);
             for k in 0..(if tier == "quick" { 3 } else { 12 }) {
                 // strings of 1 KiB and more, repeated under one obfuscated name (interning / de-duplication)
                 let long = "L".repeat(*r.pick(&[1023usize, 1024, 1025, 2000]) + k);
@@ -665,6 +702,13 @@ pub fn cases(prop: &str, seed: u64, tier: &str) -> Vec<String> {
         "C16" => {
             let b = budget(tier, 250, 24000);
             {
+                let m = "com.example.Long -> x.Long:\ncom.example.A -> a:\ncom.example.B -> a.b:\nорг.Модель -> орг.пример.Модель:\nzhu.Zhu -> 主:\n";
+                push_mapping(&mut out, m.as_bytes());
+                for s in FIXED_SIGNATURES {
+                    out.push(format!("G {}", hex(s.as_bytes())));
+                }
+            }
+            {
                 // bounded-exhaustive: every descriptor with at most 3 parameters over a 6-type alphabet and 3
                 // return types, and (thorough: all, quick: a sample of) their single-character deletions / replacements
                 let m = "com.example.Long -> x.Long:\ncom.example.A -> a:\n";
@@ -723,6 +767,7 @@ pub fn cases(prop: &str, seed: u64, tier: &str) -> Vec<String> {
 pub const FIXED_SIGNATURES: &[&str] = &[
     "", "(", ")", "()", "()V", "(L", "(La;", "(La;)", "(Lé", "(Lé)V", "(Iaé)V", "V", "(I)Lé;", "(I)L;", "(I)L", "([)V", "(é)é", "(I)[",
     "x(I)V", "(La/é)V", "(La/é", "(Lé/ü;I)V", "(Lé/ü;[Lx/y;J)[[Lé/ü;", "([[La/b;[La/b;La/b;)V", "(La/b;)La/b;", "([Lé;", "(Lé;I", "(JLa/b", "(I)Lé/ü",
+    "(Lорг/пример/Модель;La/b;)I", "([[L主;J)V", "(L主;)L主;", "(É)V", "(I)Α", "(I)[ÉI", "(Ж)V", "(ĀI)V", "(I)É",
 ];
 
 /// A hand-written mapping with the shapes that random pools hit only now and then (so that no run depends on
@@ -966,7 +1011,8 @@ fn metadata_file(r: &mut Rng) -> Vec<u8> {
         3 => 48,
         _ => r.below(60),
     };
-    let hdrs = ["# compiler: R8", "# compiler: D8", "# compiler_version: 1.2.3", "# compiler_version", "# min_api: 21", "# min_api: x", "# min_api: 4294967296", "# min_api: +7", "# min_api", "# compiler:", "# pg_map_id: abc"];
+    let hdrs = ["# compiler: R8", "# compiler: D8", "# compiler_version: 1.2.3", "# compiler_version", "# min_api: 21", "# min_api: x", "# min_api: 4294967296", "# min_api: +7", "# min_api", "# compiler:", "# pg_map_id: abc",
+        "# Compiler: javac 17", "# MIN_API: 33", "# Compiler_Version: 9", "# COMPILER: X", "# min_api:\u{2003}21", "# compiler_version:\u{a0}8.1.56", "#\u{3000}compiler: Z", "# min_api: 000000000000000000021", "# min_api:\u{b}5"];
     for _ in 0..r.below(5) {
         s.push_str(*r.pick(&hdrs));
         s.push_str(nl);
@@ -988,6 +1034,10 @@ fn metadata_file(r: &mut Rng) -> Vec<u8> {
     for _ in 0..r.below(3) {
         s.push_str("not a record");
         s.push_str(nl);
+    }
+    if r.chance(1, 6) {
+        // zero-padded line numbers (more digits than usize::MAX has) are numbers
+        s.push_str(&format!("    {}:{}:void zp():{} -> z{}", "000000000000000000007", "0000000000000000000000009", "00000000000000000000011", nl));
     }
     let unmapped = if r.chance(1, 4) { 200 + r.below(3000) } else { r.below(6) };
     for i in 0..unmapped {
@@ -1211,6 +1261,15 @@ pub fn cases_c05(seed: u64, tier: &str) -> Vec<String> {
             out.push(format!("I ={}", exp));
         }
     }
+    for l in [
+        "# compiler_version:\u{a0}8.1.56", "# min_api:\u{2003}21", "#\u{3000}key\u{3000}:\u{2028}v\u{85}", "# k:\u{b}v\u{c}", "#\u{a0}{\"id\":\"sourceFile\",\"fileName\":\"F.kt\"}",
+        "    000000000000000000007:0000000000000000000000009:void zp():00000000000000000000011 -> z", "    1:2:void zp():000000000000000000000000000003:4 -> z",
+        "    18446744073709551615:018446744073709551615:void f() -> g", "# {\"id\":\"sourceFile\",\"fileName\":\"a\\\"b\"}", "# {\"id\":\"sourceFile\",\"fileName\":\"abc\\",
+    ] {
+        for term in ["", "\n", "\r\n"] {
+            out.push(format!("R {}", hex(format!("{}{}", l, term).as_bytes())));
+        }
+    }
     for k in 0..(if b.thorough { 6 } else { 2 }) {
         // a long run of unparseable lines must not make the parser give up on the lines after it
         let n = *r.pick(&[999usize, 1000, 1001, 1500]) + k;
@@ -1249,10 +1308,10 @@ pub fn cases_c05(seed: u64, tier: &str) -> Vec<String> {
 }
 
 // ---------------------------------------------------------------- C17: trace ASTs
-const T_CLASS: &[&str] = &["java.lang.RuntimeException", "a.b.C", "a$b", "é.Ü", "x", "com.example.Foo$1", "A-B", "<X>", "\u{feff}Bom", "😀.E", "\u{ff21}"];
+const T_CLASS: &[&str] = &["java.lang.RuntimeException", "a.b.C", "a$b", "é.Ü", "x", "com.example.Foo$1", "A-B", "<X>", "\u{feff}Bom", "😀.E", "\u{ff21}", "com.example.Odd\tName", "a\u{b}b", "q\u{a0}r"];
 const T_MSG: &[&str] = &["boom", "Crash: again", "Caused by: inner", "at x.y(z:1)", "a: b: c", "é ü", "(", ")", ":", "    at a.b(c:1)", "x\ty"];
 const T_METH: &[&str] = &["m", "<init>", "<clinit>", "run", "é", "a$1", "lambda$x$0", "access$100"];
-const T_FILE: &[&str] = &["SourceFile", "Foo.java", "<unknown>", "é.kt", "a b", "x(y)", ""];
+const T_FILE: &[&str] = &["SourceFile", "Foo.java", "<unknown>", "é.kt", "a b", "x(y)", "", "Main(1).java", "B (copy).java", "a)b("];
 
 pub fn cases_c17(seed: u64, tier: &str) -> Vec<String> {
     let mut r = Rng(seed ^ 0xc17);
